@@ -8,12 +8,14 @@ IDX = ["i", "j", "k", "m"]
 
 def gen_request(rng, max_funcs=4, max_size=3, allow_internal=True, allow_single=True, allow_reduce=True,
                 allow_multi=True, max_rank=3, storages=("dict", "file_array", "shared_memory_dict"),
-                allow_zero_ext=False):
+                allow_zero_ext=False, allow_wrap=False):
     """Return a JSON-able valid map request (see harness/mapsym.py for the format).
 
     allow_zero_ext: also produce mapped functions with NO mapped axis (`x[:] -> y[j]`: every input axis is ':', the
     output has internal axes only; the function is called once).  Off by default (the random stream of the other
-    options is unchanged when it is off)."""
+    options is unchanged when it is off).
+    allow_wrap: some functions get fd["wrap"] in {"tuple", "list", "nd"}: their element values are pairs (see
+    harness/mapsym.py).  Off by default; drawn after everything else, so the stream is unchanged when it is off."""
     sizes = {}
 
     def size_of(ix):
@@ -150,10 +152,15 @@ def gen_request(rng, max_funcs=4, max_size=3, allow_internal=True, allow_single=
             arrays[o] = list(out_axes)
     if not funcs:
         return gen_request(rng, max_funcs, max_size, allow_internal, allow_single, allow_reduce, allow_multi,
-                           max_rank, storages, allow_zero_ext)
+                           max_rank, storages, allow_zero_ext, allow_wrap)
     # drop unused root inputs (surplus inputs are rejected by map)
     inputs = [kv for kv in inputs if kv[0] in used_roots]
     st = rng.choice(list(storages))
+    if allow_wrap:
+        for fd in funcs:
+            if rng.random() < 0.35:
+                fd["wrap"] = rng.choice(["tuple", "list", "nd"])
+                fd.pop("intlist", None)  # a list of pairs handed back for an internal axis is read as a 2-d array
     return {"funcs": funcs, "inputs": inputs, "internal": internal_user, "storage": st}
 
 
